@@ -58,6 +58,33 @@ def negative_compilations(ctx):
             ctx.violation(f'feature presence: {name} ' + ('must compile but does not' if must else 'must be absent at compile time but compiles'),
                           f'kind=compile\ncommand: g++ -std={std} -I{C.INCLUDE} -fsyntax-only <file>\n' + code + '\n' + p.stderr[-1500:], found_input=True)
 
+def static_probe(ctx):
+    """harness/static_probe.cpp: compile-time facts about the containers (noexcept of swap / move construction / move assignment,
+    relocatability trait, trivial destructibility, size) for element shapes that exercise the pre-C++17 emulations of the library;
+    the table must be the same under every language standard"""
+    res = C.build_many([dict(src='static_probe.cpp', defs=[], std=s, opt='-O0', san=False, name='static_probe_' + s.replace('+', 'p')) for s in STDS])
+    outs = {}
+    for s, (path, log) in zip(STDS, res):
+        ctx.count('programs')
+        if path is None:
+            ctx.violation(f'static probe does not build as -std={s}', f'kind=build static_probe {s}\n' + log[-3000:], found_input=True)
+            continue
+        outs[s] = C.sh([path]).stdout.splitlines()
+    ref_std = 'c++17' if 'c++17' in outs else (sorted(outs)[0] if outs else None)
+    bad = []
+    for s, lines in outs.items():
+        if s == ref_std:
+            continue
+        for a, b in zip(outs[ref_std], lines):
+            if a != b:
+                bad.append(f'-std={s}: {b}\n-std={ref_std}: {a}')
+        if len(lines) != len(outs[ref_std]):
+            bad.append(f'-std={s}: {len(lines)} lines, -std={ref_std}: {len(outs[ref_std])} lines')
+    ctx.hist('static_probe_lines', str(len(outs.get(ref_std, []))), 1)
+    if bad:
+        ctx.violation(f'compile-time facts about the containers depend on the language standard: {len(bad)} line(s), e.g. ' + bad[0].replace('\n', ' / ')[:260],
+                      'kind=static-probe\n# harness/static_probe.cpp compiled as each -std; lines that differ from the reference standard\n' + '\n'.join(bad[:60]) + '\n', found_input=True)
+
 def run_corpus(ctx, kind, cfg, src, blds, scripts, extras_needed, cxx17_needed=frozenset()):
     res = build_all(src, cfg.defs(), blds, f'c16{kind}_{cfg.name()}')
     for b, (path, log) in zip(blds, res):
@@ -133,17 +160,21 @@ def run(ctx):
     cfg = S.SetCfg('small', 3, 'std', cmp='less')
     run_corpus(ctx, 'set', cfg, 'set_harness.cpp', blds17, [S.gen_history(rng, cfg, 40, dom=8) for _ in range(nvec)], SET_EXTRAS)
     negative_compilations(ctx)
+    static_probe(ctx)
     ctx.coverage['builds'] = [bname(b) for b in blds]
     ctx.sample({'build': bname(blds[0]), 'config': vcfgs[0].name()})
     ctx.coverage['rule'] = ('fixed-seed corpus of vector / FlatSet / SmallSet scripts run through harness binaries built as {c++11,14,17,20} x {extras '
                             'on, off} x {NDEBUG, assertions} x {-O0, -O2} (quick tier: 8 builds covering every value of every dimension; SmallSet '
                             'from C++17); every transcript is compared with the single model transcript, hence pairwise; scripts using the non '
-                            'standard extras run on the extras-on builds only; negative compilations check that absent features are absent')
+                            'standard extras run on the extras-on builds only; negative compilations check that absent features are absent; a table of compile-time facts (noexcept of swap / moves, relocatability, size) for six element shapes x four containers must be identical under the four standards')
     ctx.assume('all builds use g++ 12 with ASan/UBSan; clang is exercised by C17 only')
 
 def replay(ctx, path):
     txt = open(path).read()
     print(txt[:3000])
+    if 'kind=static-probe' in txt:
+        c2 = type(ctx)(PROPERTY, 'quick'); static_probe(c2)
+        return 1 if c2.violations else 0
     if 'kind=compile' in txt or 'kind=build' in txt:
         c2 = type(ctx)(PROPERTY, 'quick'); negative_compilations(c2)
         return 1 if c2.violations else 0
